@@ -15,6 +15,8 @@ deriving DecidableEq, Repr
 
 inductive Op
   | add | sub | mul | sq | sq2 | neg | copy | zero | one
+  | sp1   -- level-specific unary map: multiplication by ξ (gfP2.MulXi) / by τ (gfP6.MulTau)
+  | sp2   -- level-specific unary map: conjugation
 deriving DecidableEq, Repr
 
 structure Instr where
@@ -32,6 +34,8 @@ structure Ops (α : Type) where
   neg : α → α
   zero : α
   one : α
+  sp1 : α → α := id
+  sp2 : α → α := id
 
 def evalOp {α : Type} (o : Ops α) : Op → α → α → α
   | .add, x, y => o.add x y
@@ -43,6 +47,8 @@ def evalOp {α : Type} (o : Ops α) : Op → α → α → α
   | .copy, x, _ => x
   | .zero, _, _ => o.zero
   | .one, _, _ => o.one
+  | .sp1, x, _ => o.sp1 x
+  | .sp2, x, _ => o.sp2 x
 
 /-- One instruction: read both operands from the current store, then write the destination. -/
 def step {α : Type} (o : Ops α) (s : Loc → α) (i : Instr) : Loc → α :=
